@@ -65,7 +65,38 @@ def ctrl_tlv():
                                             "len": st.integers(0, 6)}))
 
 
+def _tlv_len(c):
+    return 5 if c["t"] in (1, 2) else 1 if c["t"] == 0 else 2 + c["len"]
+
+
+def _adjacent(t):
+    """put a control TLV in front whose range begins right behind the NDEF
+    TLV's header: on the first value byte of a message with a one byte (+2)
+    or three byte (+4) length field, on the length field itself (+1), or a
+    byte or two further on"""
+    d, (sel, delta, n, kind) = t
+    if sel or d["size"] * 8 < 48:
+        return d
+    start = 16 if d["kind"] == "t2t" else 12
+    tlv = start + 5 + sum(_tlv_len(c) for c in d["ctrl"]) + d["nulls"]
+    addr = tlv + delta
+    if addr >= start + d["size"] * 8 - 2 or addr > 255 + 15:
+        return d
+    bpp = 4
+    c = {"t": kind, "page": addr >> bpp, "offs": addr & 15, "bpp": bpp,
+         "size": n * 8 if kind == 1 else n}
+    return dict(d, ctrl=[c] + list(d["ctrl"]))
+
+
+_ADJ = st.tuples(st.integers(0, 4), st.sampled_from([2, 2, 4, 4, 3, 5, 6]),
+                 st.integers(1, 9), st.sampled_from([2, 2, 1]))
+
+
 def t2t_desc():
+    return st.tuples(_t2t_desc(), _ADJ).map(_adjacent)
+
+
+def _t2t_desc():
     size = st.one_of(st.integers(1, 16), st.integers(6, 64),
                      st.sampled_from([6, 12, 18, 31, 32, 110, 125, 126, 127,
                                       128, 130, 200, 255]))
@@ -102,6 +133,10 @@ def t1t_room():
 
 
 def t1t_desc():
+    return st.tuples(_t1t_desc(), _ADJ).map(_adjacent)
+
+
+def _t1t_desc():
     size = st.one_of(st.just(14), st.just(14), st.integers(15, 63),
                      st.sampled_from([15, 16, 31, 63, 64, 127, 255]))
     return st.fixed_dictionaries({
